@@ -62,6 +62,7 @@ func main() {
 	if *replay != "" {
 		os.Exit(doReplay(*replay, *repo, *verif))
 	}
+	verifDir = *verif
 	def, ok := properties[*prop]
 	if !ok {
 		fmt.Fprintf(os.Stderr, "unknown property %q\n", *prop)
